@@ -93,7 +93,7 @@ package handlers
 //@   property C11
 //@   replay handlers_provider_endpoints@internal/app/handlers : providerType
 //@   requires pr != nil && providerType != ""
-//@   modifies *
+//@   modifies gvar lastProviderProfile, gvar decisionCount, gvar lastDecision, gvar lastModelEndpoints, gvar lastModelErr, pr.profile, domain.RequestProfile.RoutingDecision, domain.Endpoint.Status, domain.Endpoint.Name, domain.Endpoint.URLString, domain.Endpoint.Priority, domain.Endpoint.Type, domain.Endpoint.NextCheckTime, domain.Endpoint.LastChecked, domain.Endpoint.ConsecutiveFailures, domain.Endpoint.BackoffMultiplier, domain.Endpoint.LastLatency
 //@   ensures err == nil ==> allNonNil(res)
 //@   ensures err == nil ==> lastProviderProfile != nil && (forall k int :: 0 <= k && k < len(res) ==> epCompatible(res[k], lastProviderProfile.SupportedBy))
 
@@ -429,3 +429,38 @@ package handlers
 //@   ensures pxCalls == old(pxCalls) ==> ghost(w).started
 //@   ensures pxCalls == old(pxCalls) || pxCalls == old(pxCalls) + 1
 //@   ensures decisionCount == old(decisionCount) + 1 && lastDecision != nil && lastDecision.Action == "rejected" && lastDecision.StatusCode >= 400 ==> pxCalls == old(pxCalls) && ghost(w).started && ghost(w).status == lastDecision.StatusCode
+
+// ---- C05 / C09 / C11: the provider-scoped route as a whole
+//@ func extractProviderFromPath
+//@   property C11 C05
+//@   safety
+//@   ensures res2 ==> hasPrefix(path, "/olla/")
+//@   ensures !res2 ==> res0 == "" && res1 == ""
+
+//@ func (a *Application) isProviderSupported
+//@   property C11
+//@   trusted
+//@   ensures res ==> provider != ""
+
+//@ func getProviderPrefix
+//@   property C11
+//@   safety
+//@   ensures res == concat("/olla/", provider)
+
+// a malformed or unknown provider path is answered 400, a failing endpoint lookup 502, a rejected routing decision
+// with the decision's status, an empty provider set 404 - each without calling the engine; otherwise the engine is
+// called once with exactly the provider's compatible endpoints (getProviderEndpoints' postcondition, C11)
+//@ func (a *Application) providerProxyHandler
+//@   property C05 C09 C11
+//@   safety
+//@   requires a != nil && a.proxyService != nil && a.logger != nil && w != nil && r != nil && r.URL != nil
+//@   requires !ghost(w).started && len(ghost(w).hdr["Content-Type"]) == 0 && allocated(ghost(w).hdr)
+//@   modifies *
+//@   at return 1 assert ghost(w).started && ghost(w).status == 400 && pxCalls == old(pxCalls)
+//@   at return 2 assert ghost(w).started && ghost(w).status == 400 && pxCalls == old(pxCalls)
+//@   at return 3 assert ghost(w).started && ghost(w).status == 502 && pxCalls == old(pxCalls)
+//@   at return 4 assert ghost(w).started && ghost(w).status >= 400 && pxCalls == old(pxCalls)
+//@   at return 5 assert ghost(w).started && ghost(w).status == 404 && pxCalls == old(pxCalls)
+//@   at call executeProxyRequest 1 assert len(endpoints) > 0 && lastProviderProfile != nil && (forall k int :: 0 <= k && k < len(endpoints) ==> epCompatible(endpoints[k], lastProviderProfile.SupportedBy))
+//@   ensures pxCalls == old(pxCalls) ==> ghost(w).started
+//@   ensures pxCalls == old(pxCalls) || pxCalls == old(pxCalls) + 1
